@@ -157,6 +157,14 @@ def b_int(V, st, args, kwargs, node):
     v = args[0]
     if isinstance(v, SV) and v.t in (INT, BOOL):
         return SV(INT, pack(v, INT))
+    if isinstance(v, SV) and v.t == ANY:
+        # int() of an opaque value (a float, say): some integer, functionally determined by the argument; nothing
+        # relates it to the argument itself.  It may also raise.
+        for cls in ('ValueError', 'TypeError'):
+            bad = st.fork()
+            if V.feasible(bad.pc):
+                V.exc_out.append((bad, MExc(cls, [], origin='int()')))
+        return SV(INT, V.uf('int_of_any', [v.z.sort()], z3.IntSort())(v.z))
     raise Unsupported('int() of %r' % (v,))
 
 
